@@ -10,6 +10,11 @@ pub uninterp spec fn sin_r(x: real) -> real;
 pub uninterp spec fn cos_r(x: real) -> real;
 pub uninterp spec fn sqrt_r(x: real) -> real;
 pub uninterp spec fn acos_r(x: real) -> real;
+pub uninterp spec fn asin_r(x: real) -> real;
+pub uninterp spec fn atan_r(x: real) -> real;
+pub uninterp spec fn atan2_r(y: real, x: real) -> real;
+pub uninterp spec fn tan_r(x: real) -> real;
+pub uninterp spec fn ln_r(x: real) -> real;
 pub uninterp spec fn pi_r() -> real;
 pub uninterp spec fn floor_r(x: real) -> int;
 /// std::f64::MIN as a real (a large negative number)
@@ -84,6 +89,24 @@ impl F {
     /// `x.floor() as i64`
     #[verifier::external_body]
     pub fn floor_i64(x: F) -> (r: i64) ensures (r as real) <= x@, (r as real) + 1real > x@ { unimplemented!() }
+    // further libm functions: uninterpreted (no property relies on them; code that starts using one no longer matches
+    // a contract written with the functions above, which is then reported as a failed obligation rather than a tool error)
+    #[verifier::external_body]
+    pub fn asin(self) -> (r: F) ensures r@ == asin_r(self@) { unimplemented!() }
+    #[verifier::external_body]
+    pub fn atan(self) -> (r: F) ensures r@ == atan_r(self@) { unimplemented!() }
+    #[verifier::external_body]
+    pub fn atan2(self, o: F) -> (r: F) ensures r@ == atan2_r(self@, o@) { unimplemented!() }
+    #[verifier::external_body]
+    pub fn tan(self) -> (r: F) ensures r@ == tan_r(self@) { unimplemented!() }
+    #[verifier::external_body]
+    pub fn ln(self) -> (r: F) ensures r@ == ln_r(self@) { unimplemented!() }
+    #[verifier::external_body]
+    pub fn hypot(self, o: F) -> (r: F) ensures r@ == sqrt_r(self@ * self@ + o@ * o@) { unimplemented!() }
+    #[verifier::external_body]
+    pub fn mul_add(self, a: F, b: F) -> (r: F) ensures r@ == self@ * a@ + b@ { unimplemented!() }
+    #[verifier::external_body]
+    pub fn recip(self) -> (r: F) ensures r@ == div_r(1real, self@) { unimplemented!() }
     /// Theory M has no NaN or infinities
     #[verifier::external_body]
     pub fn is_finite(self) -> (r: bool) ensures r { unimplemented!() }
